@@ -30,7 +30,7 @@ import (
 
 type SyncSpec struct {
 	Lookupds int      `json:"lookupds"`
-	Faults   []string `json:"faults"` // fault per connection attempt to lookupd 1 (then "ok"): ok | refuse | close | stall | garbage | neglen | minlen | overlimit | hugelen | trunc | einvalid | restart
+	Faults   []string `json:"faults"` // fault per connection attempt to lookupd 1 (then "ok"): ok | split1 | split3 | refuse | close | stall | garbage | neglen | minlen | overlimit | hugelen | trunc | einvalid | restart
 	Ops      []string `json:"ops"`    // churn: mk:T | mkch:T:C | rmch:T:C | rm:T | pub:T | mkeph | tick | lkdrop | lkrestart | cfg:<digits of the lookupds to configure, "-" for none>
 	PreKnown bool     `json:"preknown"` // lookupd already knows channel "pre" of topic "fresh" (from another nsqd)
 	// HTTPFault: how the LAST lookupd answers nsqd's HTTP /channels query: "" (healthy) |
@@ -39,6 +39,9 @@ type SyncSpec struct {
 	// Explore: the churn operations run inside the exploration window (E2: the schedules of
 	// the notification path - Notify goroutines, notifyChan, lookupLoop - are enumerated)
 	Explore bool `json:"explore,omitempty"`
+	// Segment > 0: every reply of nsqlookupd 1 reaches nsqd at most Segment bytes per read,
+	// on every connection (TCP segmentation is not a fault: everything must work as usual)
+	Segment int `json:"segment,omitempty"`
 }
 
 func (s SyncSpec) String() string {
@@ -48,6 +51,9 @@ func (s SyncSpec) String() string {
 	}
 	if s.Explore {
 		x += " explore"
+	}
+	if s.Segment > 0 {
+		x += fmt.Sprintf(" segment=%d", s.Segment)
 	}
 	return fmt.Sprintf("lookupds=%d faults=%v ops=%v preknown=%v%s", s.Lookupds, s.Faults, s.Ops, s.PreKnown, x)
 }
@@ -150,10 +156,24 @@ func RunSync(spec SyncSpec) vx.Out {
 				}
 				return cur == "refuse"
 			},
+			ClientMaxRead: func() int {
+				// (consulted right after Refuse, for the same connection attempt)
+				switch cur {
+				case "split1":
+					return 1
+				case "split3":
+					return 3
+				}
+				if i == 0 {
+					return spec.Segment
+				}
+				return 0
+			},
 			Serve: func(c net.Conn) {
 				m := cur
 				switch m {
-				case "ok":
+				case "ok", "split1", "split3":
+					// (split*: a healthy nsqlookupd whose replies reach nsqd 1 or 3 bytes at a time)
 					lks[i].HandleConn(c)
 				case "restart":
 					// the lookupd was restarted with empty state: serve from a fresh instance
@@ -380,7 +400,7 @@ func RunSync(spec SyncSpec) vx.Out {
 
 func attemptAllOK(s SyncSpec) bool {
 	for _, f := range s.Faults {
-		if f != "ok" {
+		if f != "ok" && f != "split1" && f != "split3" {
 			return false
 		}
 	}
